@@ -110,6 +110,9 @@ type AVSKeeper interface {
 	// IsAVS returns true if the address is a registered AVS address.
 	IsAVS(ctx sdk.Context, addr string) (bool, error)
 	IsAVSByChainID(ctx sdk.Context, chainID string) (bool, string)
+	// GetStoredAVSAddress returns the address of a registered AVS in the spelling stored in
+	// its AVSInfo, whichever letter case the caller used.
+	GetStoredAVSAddress(ctx sdk.Context, avsAddr string) (string, error)
 }
 
 type SlashKeeper interface {
